@@ -73,6 +73,16 @@ for shape in ('chain', 'fan', 'diamond'):
                                % (shape, [k.__name__ for k in filled], how, c.__name__, name, c.__name__, name))
                 if how == 'add' and 'z' not in c(z=-2.5).param.pprint():     # (a Parameter ASSIGNED to a class has no name: C11-b03)
                     bad.append('%s, caches filled for %s, %s: pprint of %s(z=-2.5) drops z' % (shape, [k.__name__ for k in filled], how, c.__name__))
+            # the hierarchy grows between two invalidations: a class defined afterwards, anywhere below, counts too
+            if mask in (0, 2 ** n - 1):
+                parent = below[0] if mask == 0 else below[-1]
+                N = type('N', (parent,), {})
+                N.param.objects('existing'); list(N.param)
+                R.param.add_parameter('w', param.Number(9))
+                for c in below + [N]:
+                    if 'w' not in c.param:
+                        bad.append('%s, %s, then class N defined below %s and used, then w added to the root: %s.param does not list w although %s.w works'
+                                   % (shape, how, parent.__name__, c.__name__, c.__name__))
 if bad:
     print('REPRODUCED: ' + bad[0]); sys.exit(1)
 print('NOT-REPRODUCED'); sys.exit(0)
@@ -427,6 +437,29 @@ try:
         bad.append('UB._scale = 3: UB.param[_scale].default=%r UA._scale=%r' % (UB.param['_scale'].default, UA._scale))
 except Exception as e:
     bad.append('UB._scale = 3 on the subclass: %r' % (e,))
+# the Parameter a class-level assignment goes through is the one Python's MRO resolves for that class
+for order in ('BC', 'CB'):
+    DA = type('DA', (param.Parameterized,), {'x': param.Number(1, bounds=(0, 10)), 's': param.Selector(objects=[1, 2, 3])})
+    DB = type('DB', (DA,), {})
+    DC = type('DC', (DA,), {'x': param.Number(2, bounds=(0, 5)), 's': param.Selector(objects=[1, 2])})
+    DD = type('DD', (DB, DC) if order == 'BC' else (DC, DB), {})
+    DE = type('DE', (DD,), {})
+    for cls in (DD, DE):
+        for how in ('setattr', 'update'):
+            for nm, val in (('x', 8), ('s', 3)):
+                try:
+                    if how == 'setattr':
+                        setattr(cls, nm, val)
+                    else:
+                        cls.param.update(**{nm: val})
+                except ValueError:
+                    pass
+                else:
+                    bad.append('diamond D(%s): %s.%s = %r by %s was accepted although the Parameter that governs %s.%s (declared by C) excludes it'
+                               % (order, cls.__name__, nm, val, how, cls.__name__, nm))
+    DD.x = 4
+    if DD.param['x'].bounds != (0, 5):
+        bad.append("diamond D(%s): after D.x = 4 the class's own copy has bounds %r, the governing Parameter has (0, 5)" % (order, DD.param['x'].bounds,))
 w = []
 SA.param.watch(lambda e: w.append(e.new), 's')
 SB.s = 'b'
